@@ -291,6 +291,25 @@ pub fn run(cfg: &Cfg, rep: &mut Report) {
         }
         let (ta, tb) = if i % 3 == 0 {
             (rng.pick(&uni).clone(), rng.pick(&uni).clone())
+        } else if i % 3 == 1 && i % 2 == 0 {
+            // unions whose members answer the partial API questions differently (iterator / callable / indexable / cell /
+            // tuple / struct shapes with `any` and with concrete types, next to members the question does not apply to):
+            // the answer is folded over the members in hash order
+            let it = |t: Ty| Ty::fun(vec![], Ty::Tup(vec![Ty::Bool, t]));
+            let mut st = std::collections::BTreeMap::new();
+            st.insert("a".to_string(), Ty::Any);
+            let mut st2 = std::collections::BTreeMap::new();
+            st2.insert("a".to_string(), Ty::Int);
+            let shapes: Vec<Ty> = vec![
+                it(Ty::Any), it(Ty::Int), it(Ty::union([Ty::Int, Ty::Str])), Ty::fun(vec![Ty::Any], Ty::Int), Ty::fun(vec![Ty::Int], Ty::Int), Ty::fun(vec![Ty::Int], Ty::Any),
+                Ty::fun(vec![Ty::Int, Ty::Any], Ty::Str), Ty::arr(Ty::Any), Ty::arr(Ty::Int), Ty::arr(Ty::Never), Ty::Str, Ty::Int, Ty::Any, Ty::Void,
+                Ty::Tup(vec![Ty::Int, Ty::Any]), Ty::Tup(vec![Ty::Any, Ty::Int]), Ty::Tup(vec![Ty::Int, Ty::Int, Ty::Int]), Ty::Struct(st), Ty::Struct(st2),
+                Ty::mutc(Ty::Any), Ty::mutc(Ty::Int), Ty::mutc(Ty::union([Ty::Int, Ty::Any])),
+            ];
+            let n = 2 + rng.below(2);
+            let a = Ty::union((0..n).map(|_| rng.pick(&shapes).clone()).collect::<Vec<_>>());
+            let b = if rng.chance(1, 2) { rng.pick(&shapes).clone() } else { a.clone() };
+            (a, b)
         } else {
             // focus: unions of structs / functions / arrays / tuples with >= 3 members
             let d = 1 + rng.below(3);
